@@ -62,6 +62,7 @@ def run(chk):
         _compose.run_lib(lib, chk, "C10")
     from props import _state
     _state.run_state(chk)
+    _state.run_length_wrap(chk)
     from props import C09 as _c09
     _c09.run_batch_rules(chk)
     for f in _compose.load(["_funcs"], chk):
